@@ -88,7 +88,7 @@ def _theorems(ctx, alphabets):
 
 
 def _witness(r):
-    m = re.search(r"toks = (<<.*?>>)\s*(?:/\\|$)", r.trace[-1].replace("\n", " ")) if r.trace else None
+    m = re.search(r"toks = (<<.*?>>)", r.trace[-1].replace("\n", " ")) if r.trace else None
     if not m:
         return "?"
     try:
